@@ -46,6 +46,11 @@
    six functors, plain / compound / noalias operator forms, mixed dense/sparse, both matrix orientations, nine shapes
    of sparse right-hand-side expressions) are run by harness/c01_sparse.cpp and by the extracted C01SparseExec.run_cmd and compared exactly INCLUDING capacities and the
    stored index sequences, with an independent monitor of the storage invariant and of the element-wise meaning.
+     * TRIANGULAR PRODUCTS: triangular_prod<tag>(A, v) / (A, B) are part of the deep embedding (constructor MTri =
+       to_triangular; C01_triangular_prod_meaning); every C01_assign_* theorem covers them; generated in their own
+       stream (all four tags, both orientations, compound noalias forms with scalar factors, plain forms) and, like
+       the products with an inner dimension above the 512-tile of the CBLAS fall-back gemm (long-inner stream),
+       compared three-way on every run;
      * DENSE BLOCKED ASSIGNMENT KERNELS with transposition (C01BlockModel.v, loop nest as coded, every block size and
        shape): C01_dense_blocked_kernel_correct; run next to kernels::assign(dense, dense of the other orientation)
        by the sparse harness (commands DKA / DKF, shapes around the 8 x 8 / 16 x 16 blocking);
@@ -655,3 +660,44 @@ Example C01_dense_blocked_kernel_examples :
   blk_kernel 8%nat (fun _ y => y) 0%nat 5%nat (fun _ _ => 7) (fun _ _ => 1) 0%nat 0%nat = 1 /\
   blk_kernel 2%nat Z.mul 3%nat 3%nat (fun i j => Z.of_nat (i + 1)) (fun i j => Z.of_nat (j + 1)) 2%nat 2%nat = 9.
 Proof. repeat split; vm_compute; reflexivity. Qed.
+
+(* ======================================================================================================
+   TRIANGULAR PRODUCTS.  triangular_prod<lower|upper|unit_lower|unit_upper>(A, v) resp. (A, B) is
+   prod(to_triangular(A, tag), .) in C++ and VMv alpha (MTri upper unit A) v resp. MProd alpha (MTri upper unit A) B
+   in the model (constructor MTri of C01Model.v).  All assignment theorems above (the C01_assign_... theorems) quantify over every
+   vexp / mexp and therefore cover these right-hand sides - plain, compound and noalias forms, any scalar factor;
+   the optimiser table has no rule for triangular proxies (checked structurally by tools/c01_rules.py) and treats the
+   node as an opaque product.  The denotation is the product with the named triangle, unit diagonal for the unit tags:
+   ====================================================================================================== *)
+Theorem C01_triangular_prod_meaning :
+  forall (s : env) (alpha : Z) (upper unit : bool) (A : mexp) (v : vexp) (B : mexp) (i j : nat),
+    let t := fun a b => if (a =? b)%nat then (if unit then 1 else mden s A a b)
+                        else if (if upper then (a <? b)%nat else (b <? a)%nat) then mden s A a b else 0 in
+    vden s (VMv alpha (MTri upper unit A) v) i = alpha * sumn (mcols A) (fun k => t i k * vden s v k) /\
+    mden s (MProd alpha (MTri upper unit A) B) i j = alpha * sumn (mcols A) (fun k => t i k * mden s B k j) /\
+    (vwf (VMv alpha (MTri upper unit A) v) = mwf A && (mrows A =? mcols A)%nat && vwf v && (mcols A =? vsize v)%nat).
+Proof. intros. repeat split. Qed.
+Print Assumptions C01_triangular_prod_meaning.
+
+(* the compound alias-free form with a scalar factor, spelled out for a triangular right-hand side *)
+Theorem C01_assign_noalias_triangular_correct :
+  forall (s : env) (o : aop) (x y : nat) (n : nat) (A : nat) (c : Z) (upper unit : bool), x <> y ->
+    let t := VVar x n in
+    let e := VScale c (VMv 1 (MTri upper unit (MVar A n n)) (VVar y n)) in
+    let s' := exec s (SAssignV true o t e) in
+    (forall i, (i < n)%nat -> vden s' t i = combine_op o (vden s t i) (vden s e i)) /\
+    (forall a, ~ In a (vcells t) -> rd s' a = rd s a).
+Proof.
+  intros s o x y n A c upper unit Hxy t e.
+  apply (C01_assign_noalias_correct_vector s o t e); [reflexivity|].
+  cbn. destruct (Nat.eqb_spec y x); [congruence|reflexivity].
+Qed.
+Print Assumptions C01_assign_noalias_triangular_correct.
+
+Example C01_triangular_examples :
+  let s := mkEnv (fun _ i => Z.of_nat i + 1) (fun _ i j => Z.of_nat (3 * i + j) + 1) in   (* A = [1 2 3; 4 5 6; 7 8 9], v = (1,2,3) *)
+  vden s (VMv 1 (MTri false false (MVar 0 3 3)) (VVar 0 3)) 2 = 7 * 1 + 8 * 2 + 9 * 3 /\
+  vden s (VMv 2 (MTri true true (MVar 0 3 3)) (VVar 0 3)) 0 = 2 * (1 * 1 + 2 * 2 + 3 * 3) /\
+  vwf (VMv 1 (MTri false true (MVar 0 3 3)) (VVar 0 3)) = true /\
+  stmt_ok (SAssignV true OpSub (VVar 1 3) (VMv 1 (MTri true false (MVar 0 3 3)) (VVar 0 3))) = true.
+Proof. repeat split. Qed.
